@@ -125,7 +125,11 @@ Proof. intros. now rewrite lenN_oct_digits. Qed.
 
 Ltac flen := first [apply lenN_stn | apply lenN_itn8 | apply lenN_itn12 | apply lenN_chk | apply lenN_zeros
   | match goal with |- lenN ?l = _ => let v := eval vm_compute in (lenN l) in exact (eq_refl v) end].
-Ltac sl := repeat (erewrite slice_app_r by (first [flen | lia])); erewrite slice_app_l by (first [flen | lia]).
+(* the offsets are renormalised to numerals after every step: nested truncated subtractions make lia exponential *)
+Ltac norm_sub := repeat match goal with |- context [slice (?a - ?n) (?b - ?n) _] =>
+    let a' := eval vm_compute in (a - n) in let b' := eval vm_compute in (b - n) in
+    change (slice (a - n) (b - n)) with (slice a' b') end.
+Ltac sl := repeat (erewrite slice_app_r by (first [flen | lia]); norm_sub); erewrite slice_app_l by (first [flen | lia]).
 
 Definition le255 (l : bytes) : Prop := Forall (fun b => b <= 255) l.
 Lemma sumN_acc : forall l a, fold_left N.add l a = a + sumN l.
